@@ -14,7 +14,9 @@ mako/codegen.py says *now*, as Lean constants:
 * `closeOnRaise`       - the write happens inside a `with` block: the file is closed while the exception unwinds
 * `tmpInTargetDir`     - mkstemp(dir=os.path.dirname(outputpath)): the temp file lives beside the destination, so
                          the final move is a rename within one directory (atomic)
-* `dropsBytecode`      - after the write the `__pycache__` entry of the module path is unlinked
+* `dropsBytecode`      - after the built-in writer the `__pycache__` entry of the module path is unlinked
+* `dropsBytecodeHook`  - … and after a user-supplied module_writer as well
+* `mtimesWholeSeconds` - the source's mtime is read as whole seconds like the module's (`[stat.ST_MTIME]`)
 * `hookArgsOk`         - module_writer is called as module_writer(source, outputpath)
 
 A statement shape that is not understood raises RegenError (broken tie).
@@ -120,15 +122,24 @@ def staleness(repo):
         raise RegenError("_compile_from_file: the module's time is not ST_MTIME")
     if not is_name(l.value.args[0], "path"):
         raise RegenError("_compile_from_file: staleness test does not stat `path`")
-    # filemtime = os.stat(filename)[stat.ST_MTIME]
-    ok = False
+    # filemtime = os.stat(filename)[stat.ST_MTIME]  (whole seconds)  |  os.stat(filename).st_mtime  (a float)
+    src_whole = None
     for n in ast.walk(fn):
         if isinstance(n, ast.Assign) and len(n.targets) == 1 and is_name(n.targets[0], "filemtime"):
             v = n.value
-            ok = isinstance(v, ast.Subscript) and call_name(v.value) == "os.stat" and is_name(v.value.args[0], "filename") \
-                and dotted(v.slice) == "stat.ST_MTIME"
-    if not ok:
-        raise RegenError("_compile_from_file: filemtime is not os.stat(filename)[stat.ST_MTIME]")
+            if call_name(v) == "int" and len(v.args) == 1:
+                inner = v.args[0]
+                if isinstance(inner, ast.Attribute) and inner.attr == "st_mtime" and call_name(inner.value) == "os.stat" \
+                        and is_name(inner.value.args[0], "filename"):
+                    src_whole = True
+            elif isinstance(v, ast.Subscript) and call_name(v.value) == "os.stat" and is_name(v.value.args[0], "filename") \
+                    and dotted(v.slice) == "stat.ST_MTIME":
+                src_whole = True
+            elif isinstance(v, ast.Attribute) and v.attr in ("st_mtime", "st_mtime_ns") and call_name(v.value) == "os.stat" \
+                    and is_name(v.value.args[0], "filename"):
+                src_whole = False
+    if src_whole is None:
+        raise RegenError("_compile_from_file: filemtime is not the mtime of os.stat(filename)")
     # helper methods of Template that (re)write the module file and hand back the module loaded from it:
     #   def _h(self, path, filename): …; _compile_module_file(…); return compat.load_module(self.module_id, path)
     helpers = set()
@@ -178,7 +189,7 @@ def staleness(repo):
         if writes(n) and module_rebound(n):
             recheck = recheck or "magic" in kinds
             file_recheck = file_recheck or "file" in kinds
-    return CMP[type(cmp_.ops[0])], missing, recheck, file_recheck
+    return CMP[type(cmp_.ops[0])], missing, recheck, file_recheck, src_whole
 
 
 # ----------------------------------------------------------------------------- _compile_module_file
@@ -194,25 +205,37 @@ def writer(repo):
     br = branch[0]
     # after the branch: nothing, or the removal of the cached bytecode of the file just replaced
     #   try: os.unlink(<…>.cache_from_source(outputpath))  except (…): pass
-    tail = fn.body[fn.body.index(br) + 1:]
-    drops_bytecode = False
-    if tail:
-        t = tail[0]
-        ok = len(tail) == 1 and isinstance(t, ast.Try) and len(t.body) == 1 and isinstance(t.body[0], ast.Expr) \
+    def is_pyc_unlink(t):
+        ok = isinstance(t, ast.Try) and len(t.body) == 1 and isinstance(t.body[0], ast.Expr) \
             and call_name(t.body[0].value) in ("os.unlink", "os.remove") and not t.finalbody and not t.orelse \
             and all(len(h.body) == 1 and isinstance(h.body[0], ast.Pass) for h in t.handlers)
         if ok:
             a = t.body[0].value.args[0]
             ok = isinstance(a, ast.Call) and (call_name(a) or "").endswith("cache_from_source") \
                 and len(a.args) == 1 and is_name(a.args[0], "outputpath")
-        if not ok:
+        return ok
+
+    tail = fn.body[fn.body.index(br) + 1:]
+    drops_bytecode = False           # after the built-in writer
+    drops_bytecode_hook = False      # after a user-supplied module_writer
+    if tail:
+        if not (len(tail) == 1 and is_pyc_unlink(tail[0])):
             raise RegenError("_compile_module_file: statement after the module_writer branch not understood (line %d)"
                              % tail[0].lineno)
+        drops_bytecode = drops_bytecode_hook = True
+    # the same removal at the end of one branch only
+    else_body = list(br.orelse)
+    if else_body and is_pyc_unlink(else_body[-1]):
+        else_body.pop()
         drops_bytecode = True
+    hook_body = list(br.body)
+    if len(hook_body) == 2 and is_pyc_unlink(hook_body[-1]):
+        hook_body.pop()
+        drops_bytecode_hook = True
     hook_ok = False
-    if len(br.body) == 1 and isinstance(br.body[0], ast.Expr) and call_name(br.body[0].value) == "module_writer":
-        a = br.body[0].value.args
-        hook_ok = len(a) == 2 and is_name(a[0], "source") and is_name(a[1], "outputpath") and not br.body[0].value.keywords
+    if len(hook_body) == 1 and isinstance(hook_body[0], ast.Expr) and call_name(hook_body[0].value) == "module_writer":
+        a = hook_body[0].value.args
+        hook_ok = len(a) == 2 and is_name(a[0], "source") and is_name(a[1], "outputpath") and not hook_body[0].value.keywords
     ops = []
     loops = [False]
     close_on_raise = [False]
@@ -316,13 +339,13 @@ def writer(repo):
         raise RegenError("_compile_module_file: statement not understood at line %d: %s"
                          % (getattr(s, "lineno", 0), ast.dump(s)[:120]))
 
-    for s in br.orelse:
+    for s in else_body:
         stmt(s)
     if pending:
         raise RegenError("_compile_module_file: a buffered write is never flushed or closed")
     if not ops:
         raise RegenError("_compile_module_file: no file-system primitive found in the default branch")
-    return ops, loops[0], tmp_in_dir[0], hook_ok, close_on_raise[0], drops_bytecode
+    return ops, loops[0], tmp_in_dir[0], hook_ok, close_on_raise[0], drops_bytecode, drops_bytecode_hook
 
 
 def lean_bool(b):
@@ -337,10 +360,10 @@ def gen(repo):
     if '"_magic_number = %r" % MAGIC_NUMBER' not in cg:
         raise RegenError("codegen: `_magic_number = %r` % MAGIC_NUMBER is no longer emitted")
     tries = verify_dir_tries(repo)
-    cmp_, missing, recheck, file_recheck = staleness(repo)
+    cmp_, missing, recheck, file_recheck, whole = staleness(repo)
     if '"_template_filename = %a" % self.compiler.filename' not in cg and '"_template_filename = %r" % self.compiler.filename' not in cg:
         raise RegenError("codegen: `_template_filename` is no longer emitted from compiler.filename")
-    ops, loops, tmp_in_dir, hook_ok, close_on_raise, drops_bytecode = writer(repo)
+    ops, loops, tmp_in_dir, hook_ok, close_on_raise, drops_bytecode, drops_bytecode_hook = writer(repo)
     out = [HEADER % "mako/codegen.py, mako/util.py, mako/template.py (tools/regen_modfile.py)"]
     out.append("namespace MakoModel.Generated.ModFile\n")
     out.append("/-- file-system primitives a module writer can be made of -/")
@@ -368,6 +391,10 @@ def gen(repo):
                "def tmpInTargetDir : Bool := %s\n" % lean_bool(tmp_in_dir))
     out.append("/-- after a (re)write the cached bytecode of the module path is removed -/\n"
                "def dropsBytecode : Bool := %s\n" % lean_bool(drops_bytecode))
+    out.append("/-- … and also after a user-supplied `module_writer` wrote it -/\n"
+               "def dropsBytecodeHook : Bool := %s\n" % lean_bool(drops_bytecode_hook))
+    out.append("/-- both sides of the staleness comparison are whole seconds (`os.stat(…)[stat.ST_MTIME]`) -/\n"
+               "def mtimesWholeSeconds : Bool := %s\n" % lean_bool(whole))
     out.append("/-- the hook is called as `module_writer(source, outputpath)` -/\n"
                "def hookArgsOk : Bool := %s\n" % lean_bool(hook_ok))
     out.append("end MakoModel.Generated.ModFile")
